@@ -64,7 +64,9 @@ impl Shape {
                 let _ = match k {
                     Kind::F32 => write!(out, "{:?}", f32::from_bits(b as u32)),
                     Kind::F64 => write!(out, "{:?}", f64::from_bits(b)),
-                    Kind::I8 | Kind::I16 | Kind::I32 | Kind::I64 | Kind::I128 => write!(out, "{}", b as i64),
+                    Kind::I8 | Kind::I16 | Kind::I32 | Kind::I64 => write!(out, "{}", b as i64),
+                    Kind::I128 => write!(out, "{}", crate::node::wide::show_i(b)),
+                    Kind::U128 => write!(out, "{}", crate::node::wide::show_u(b)),
                     _ => write!(out, "{}", b),
                 };
             }
@@ -182,8 +184,8 @@ scal!(u32, Kind::U32, |b: u64| b as u32, |v: u32| v as u64);
 scal!(u64, Kind::U64, |b: u64| b, |v: u64| v);
 scal!(isize, Kind::I64, |b: u64| b as i64 as isize, |v: isize| v as i64 as u64);
 scal!(usize, Kind::U64, |b: u64| b as usize, |v: usize| v as u64);
-scal!(i128, Kind::I128, |b: u64| b as i64 as i128, |v: i128| v as i64 as u64);
-scal!(u128, Kind::U128, |b: u64| b as u128, |v: u128| v as u64);
+scal!(i128, Kind::I128, |b: u64| crate::node::wide::decode(b), |v: i128| crate::node::wide::encode(v));
+scal!(u128, Kind::U128, |b: u64| crate::node::wide::decode(b) as u128, |v: u128| crate::node::wide::encode(v as i128));
 
 // Every impl below is for a *concrete* type. A generic `impl<S: Subject> Subject for Vector3<S>`
 // would have to prove `Vector3<S>: Serialize` from cgmath's own where-clauses, and would stop
